@@ -137,5 +137,9 @@ Definition item_kv (i : item) : bytes * bytes := (fst (fst i), snd (fst i)).
 
 Definition stamp_of (z : smap N) (k : bytes) : N := match get z k with Some n => n | None => 0 end.
 
-Definition citems (c : cstore) (a b : bytes) : list item :=
-  map (fun kv => (fst kv, snd kv, stamp_of (stamps c) (fst kv))) (iter_all (st c) a b).
+(* what an iterator shows; the write stamp is only part of a record's identity under ByVersion *)
+Definition mk_item (m : dcmode) (z : smap N) (kv : bytes * bytes) : item :=
+  (fst kv, snd kv, match m with ByValue => 0 | ByVersion => stamp_of z (fst kv) end).
+
+Definition citems (m : dcmode) (c : cstore) (a b : bytes) : list item :=
+  map (mk_item m (stamps c)) (iter_all (st c) a b).
